@@ -1,0 +1,48 @@
+//go:build verif
+
+package gortsplib
+
+// Thin wrappers that export unexported helpers of the root package to the
+// verification harness (build tag "verif" only; nothing here changes behaviour).
+// One section per property; keep wrappers one-liners.
+
+import (
+	"github.com/pion/sdp/v3"
+
+	"github.com/bluenviron/gortsplib/v5/pkg/base"
+	"github.com/bluenviron/gortsplib/v5/pkg/description"
+)
+
+// ---------------------------------------------------------------------------
+// C20 — URL fidelity (server_session.go, client.go)
+// ---------------------------------------------------------------------------
+
+// VerifStringsReverseIndex exports stringsReverseIndex.
+func VerifStringsReverseIndex(s, substr string) int {
+	return stringsReverseIndex(s, substr)
+}
+
+// VerifGetPathAndQuery exports getPathAndQuery (all methods except SETUP).
+func VerifGetPathAndQuery(u *base.URL, isAnnounce bool) (string, string) {
+	return getPathAndQuery(u, isAnnounce)
+}
+
+// VerifGetPathAndQueryAndTrackID exports getPathAndQueryAndTrackID (SETUP when playing).
+func VerifGetPathAndQueryAndTrackID(u *base.URL) (string, string, string, error) {
+	return getPathAndQueryAndTrackID(u)
+}
+
+// VerifFindMediaByURL exports findMediaByURL (SETUP when recording).
+func VerifFindMediaByURL(medias []*description.Media, path string, query string, u *base.URL) *description.Media {
+	return findMediaByURL(medias, path, query, u)
+}
+
+// VerifFindMediaByTrackID exports findMediaByTrackID (SETUP when playing).
+func VerifFindMediaByTrackID(medias []*description.Media, trackID string) *description.Media {
+	return findMediaByTrackID(medias, trackID)
+}
+
+// VerifFindBaseURL exports the client's findBaseURL.
+func VerifFindBaseURL(sd *sdp.SessionDescription, res *base.Response, u *base.URL) (*base.URL, error) {
+	return findBaseURL(sd, res, u)
+}
